@@ -323,7 +323,7 @@ def r4_marker(ctx):
             g = [x for x in g if not is_next_switch(cc, x[1])]
             names = [(c.get("name", ""), o) for (_, c, o) in g if c["kind"] == "boolcall"]
             exprs = [o for (_, c, o) in g if c["kind"] == "expr"]
-            cmps = [c for (_, c, o) in g if c["kind"] == "cmp" and "Visibility" not in str(c.get("callee", ""))]
+            cmps = [c for (_, c, o) in g if c["kind"] == "cmp" and "Visibility" not in str(c.get("callee", "")) + " ".join(c.get("targs", []))]
             if names == [(UPD + "::changed_entity_added", {False})] and exprs == [{True}] and not cmps:
                 forced = True
     ctx.check(forced, "collect_changes/record-for-every-new-entity", site_of(cc), "a newly visible entity without components gets no change record (its marker/mapping would never be established)")
